@@ -64,6 +64,8 @@ func c06check1(p *AllProject, r *rbT, files []string, srcs [][]byte, oi int, src
 		class = prefix + "-global-mixed-depth"
 	} else if r.isColonReceiver(o.name) {
 		class = prefix + "-self-receiver"
+	} else if o.decl < 0 && r.globalMultiFile(o.name) {
+		class = prefix + "-global-multi-file-def"
 	}
 	verifReach(tag)
 	verifObserve(tag, o.name+" at "+strconv.Itoa(o.loc.StartLine)+":"+strconv.Itoa(col)+" -> "+strconv.Itoa(len(got)))
@@ -171,3 +173,50 @@ func VerifRun_C11() {
 	}
 	verifReach("done")
 }
+
+// ---- multi-file: globals across files through the real reference worker pool
+
+var c06multi = [][]string{
+	{"\x01 = 1\ng = \x01\n", "h = \x02\n", "k = \x03\n\x03 = 2\n", "m = \x04\n"},
+	{"local M = {}\nM.f = \x01\nreturn M\n", "local M = {}\n\x02 = M\nreturn M\n", "q = \x03\n", "r = \x04\n"},
+}
+
+func c06multiRun(src common.CheckReferenceSrc, tag, prefix string) {
+	root := verifVFSRoot()
+	c08workspaceRoot(root)
+	ti := verifConcretize(verifRange("template", 0, len(c06multi)-1))
+	t := c06multi[ti]
+	files := make([]string, len(t))
+	srcs := make([][]byte, len(t))
+	var names [10]byte
+	var have [10]bool
+	for i := range t {
+		files[i] = root + "/" + string([]byte{'a' + byte(i)}) + ".lua"
+		b := []byte(t[i])
+		for j, c := range b {
+			if c >= 1 && c <= 9 {
+				if !have[c] {
+					names[c] = verifByteIn("n"+string([]byte{'0' + c}), "xy")
+					have[c] = true
+				}
+				b[j] = names[c]
+			}
+		}
+		srcs[i] = b
+	}
+	p, fs := vpProject(files, srcs)
+	r := rbBind(fs)
+	for oi := range r.occs {
+		c06check(p, r, files, srcs, oi, src, tag, prefix)
+	}
+	verifReach("done")
+}
+
+func c08workspaceRoot(root string) {
+	dm := common.GConfig.GetDirManager()
+	dm.SetVSRootDir(root)
+	dm.InitMainDir()
+}
+
+func VerifRun_C06multi() { c06multiRun(common.CRSReference, "references", "C06") }
+func VerifRun_C11multi() { c06multiRun(common.CRSRename, "rename", "C11") }
